@@ -5,6 +5,7 @@
 use std::io::{BufRead, BufWriter, Write};
 
 mod c02;
+mod c13;
 pub mod util;
 
 fn main() {
@@ -17,6 +18,7 @@ fn main() {
     std::panic::set_hook(Box::new(|_| {}));
     let f: fn(&mut util::Toks) -> Vec<i128> = match args[1].as_str() {
         "c02" => c02::run_case,
+        "c13" => c13::run_case,
         p => {
             eprintln!("unknown property {}", p);
             std::process::exit(2);
